@@ -25,6 +25,7 @@ class Path:
         self.ciphered = cfg.ek is not None
         self.mic = cfg.mic + 10
         self.mch = MCH
+        self.maxpdu = 500                # server-max-receive-pdu-size the meter announces
 
     def seal(self, inner, ic=None):
         ic = self.next_ic() if ic is None else ic
@@ -41,10 +42,10 @@ class Path:
             title = MT if self.ciphered or mech == 5 else None
             chal = self.mch if mech == 5 else None
             if self.ciphered:
-                ct, ic = self.seal("init.127.500")
+                ct, ic = self.seal(f"init.127.{self.maxpdu}")
                 ui = f"glo:{self.cfg.suite + 48}:{ic}:{ct}"
             else:
-                ui = "init:127:500"
+                ui = f"init:127:{self.maxpdu}"
             return ["recv", ["aare", str(res), "none" if mech is None else str(mech), title or "none", chal or "none", ui], None]
         if kind == "rlre":
             if self.ciphered:
@@ -147,6 +148,15 @@ class C03(fw.Prop):
             out.append(p.resp(k))
         out.append(p.resp("actRespData", "mal1"))
         out.append(p.resp("actRespData", p.valid_proof(78)))
+        # variants the state machine must treat like their kind: last-block TRUE written as 0xFF / 0x80, an exception-response
+        # carrying an invocation counter, an AARE announcing an unusually small (or no) maximum PDU size
+        for k in ["getRespLastBlockFF", "getRespLastBlock80", "getRespLastBlockErrFF", "exceptionRespIc", "exceptionRespIcBig"]:
+            out.append(p.resp(k))
+        for size in (0, 5, 11, 12):
+            p.maxpdu = size
+            out.append(p.resp("aare", (0, None)))
+            out.append(p.resp("aare", (1, None)))
+        p.maxpdu = 500
         # outside the alphabet: a response kind sent, a request kind received
         out += [["send", "dataNotif", 1], ["send", "getRespNormal", 1], ["send", "exceptionResp", 1]]
         if not p.ciphered:
